@@ -148,6 +148,10 @@ class Sem:
             return self.layout(t)["align"]
         raise ValueError(k)
 
+    def al(self, st):
+        """Alignment mode of this structure (a named structure may have been loaded with its own align flag)."""
+        return bool(st.get("align", self.aligned))
+
     def layout(self, st):
         """Static layout: per-field offset (None once dynamic; bit-fields get their unit's offset), size, align,
         and the storage-unit allocation of bit-fields (unit index per field)."""
@@ -166,9 +170,9 @@ class Sem:
                 algn = max(algn, self.align(f["t"]))
                 s = self.size(f["t"])
                 size = None if (size is None or s is None) else max(size, s)
-                offs.append(0)
+                offs.append(f.get("offset") or 0)  # explicit member offsets exist through the API only
                 units.append(None)
-            if self.aligned and size is not None:
+            if self.al(st) and size is not None:
                 size += -size % algn
             lay = {"offs": offs, "size": size, "align": algn, "units": units}
             self._lay[key] = lay
@@ -186,7 +190,7 @@ class Sem:
                 if bsz is None or SCALARS[base][0] not in ("int", "char"):
                     raise DefinitionError("bit-field storage must be a fixed-size integer")
                 if unit_type != base or unit_left == 0:
-                    if off is not None and self.aligned:
+                    if off is not None and self.al(st):
                         off += -off % a
                     unit_type, unit_left = base, bsz * 8
                     unit_id += 1
@@ -201,13 +205,13 @@ class Sem:
                 continue
             unit_type, unit_left = None, 0
             units.append(None)
-            if off is not None and self.aligned:
+            if off is not None and self.al(st):
                 off += -off % a
             offs.append(off)
             if off is not None:
                 s = self.size(f["t"])
                 off = None if s is None else off + s
-        if off is not None and self.aligned:
+        if off is not None and self.al(st):
             off += -off % algn
         lay = {"offs": offs, "size": off, "align": algn, "units": units}
         self._lay[key] = lay
@@ -401,7 +405,7 @@ class Sem:
                     off = lay["offs"][i]
                     if off is not None and not dyn:
                         cur = start + off
-                    elif self.aligned:
+                    elif self.al(st):
                         cur += -cur % self.align(f["t"])
                     raw = self._take(buf, cur, bsz, None)
                     unit = [base, int.from_bytes(raw, self.endian), bsz * 8, cur, bsz * 8]
@@ -421,13 +425,13 @@ class Sem:
             off = lay["offs"][i]
             if off is not None and not dyn:
                 cur = start + off
-            elif self.aligned:
+            elif self.al(st):
                 cur += -cur % self.align(f["t"])
             v, cur = self.decode(f["t"], buf, cur, mask, res)
             if self.size(f["t"]) is None:
                 dyn = True
             res[key] = v
-        if self.aligned:
+        if self.al(st):
             if lay["size"] is not None:
                 cur = start + lay["size"]
             else:
@@ -450,7 +454,7 @@ class Sem:
         if self.union_spans is not None:
             self.union_spans.append((pos, pos + lay["size"], u))
         for i, f in enumerate(u["fields"]):
-            v, _ = self.decode(f["t"], buf, pos, mask, None)
+            v, _ = self.decode(f["t"], buf, pos + lay["offs"][i], mask, None)
             res[fkey(f, i)] = v
         return res, pos + lay["size"]
 
@@ -550,7 +554,7 @@ class Sem:
                     off = lay["offs"][i]
                     if off is not None and not dyn:
                         self._pad_to(out, start + off)
-                    elif self.aligned:
+                    elif self.al(st):
                         self._pad_to(out, len(out) + (-len(out) % self.align(f["t"])))
                     unit = [base, 0, bsz * 8, bsz * 8]
                 w = f["bits"]
@@ -563,13 +567,13 @@ class Sem:
             off = lay["offs"][i]
             if off is not None and not dyn:
                 self._pad_to(out, start + off)
-            elif self.aligned:
+            elif self.al(st):
                 self._pad_to(out, len(out) + (-len(out) % self.align(f["t"])))
             self.encode(f["t"], val, out)
             if self.size(f["t"]) is None:
                 dyn = True
         flush()
-        if self.aligned:
+        if self.al(st):
             if lay["size"] is not None:
                 self._pad_to(out, start + lay["size"])
             else:
@@ -583,9 +587,10 @@ class Sem:
         start = len(out)
         buf = bytearray(lay["size"])
         if self.union_write == "largest":
-            f = u["fields"][self.union_written_member(u)]
-            b = self.encode(f["t"], v[fkey(f, self.union_written_member(u))], bytearray())
-            buf[: len(b)] = b
+            wi = self.union_written_member(u)
+            f = u["fields"][wi]
+            b = self.encode(f["t"], v[fkey(f, wi)], bytearray())
+            buf[: len(b)] = b  # the library's writer ignores the member's offset
             out += buf[: lay["size"]]
             return
         # overlay members largest-last so that every member's data bytes are present
@@ -598,8 +603,10 @@ class Sem:
                 self.decode(f["t"], bytes(b), 0, m, None)
             except (Short, NonCanonical):
                 m = bytearray(b"\xff" * len(b))
+            o_ = lay["offs"][i]
             for j in range(len(b)):
-                buf[j] = (buf[j] & ~m[j] & 0xFF) | (b[j] & m[j])
+                if o_ + j < len(buf):
+                    buf[o_ + j] = (buf[o_ + j] & ~m[j] & 0xFF) | (b[j] & m[j])
         out += buf
         assert len(out) == start + lay["size"]
 
